@@ -142,3 +142,7 @@ unsafe impl<S: BuildHasher + Clone + 'static> Send for PolicyProcessor<S> {}
 unsafe impl<S: BuildHasher + Clone + 'static> Sync for PolicyProcessor<S> {}
 
 impl_policy!(LFUPolicy);
+
+#[cfg(all(transparencies_stretto_verif, any(kani, test)))]
+#[path = "/verif/harness/h_policy_sync.rs"]
+mod verif_harness;
